@@ -228,7 +228,7 @@ class VectorsFromPriosH(Harness):
             return "COMPRESSED"
         pnd.integer_ndarray.ndint_compress = recorder
         c.on_exit = lambda: setattr(pnd.integer_ndarray, "ndint_compress", orig)
-        return {"cfg": cfg, "dv": dv, "prios": prios, "rec": rec, "orig": orig, "pnd": pnd}
+        return {"cfg": cfg, "dv": dv, "prios": prios, "rec": rec, "orig": orig, "pnd": pnd, "lo": lo, "hi": hi}
 
     def run(self, c, st):
         c.nd_epoch = 1
@@ -255,6 +255,7 @@ class VectorsFromPriosH(Harness):
     def concretise(self, case, k, model, c, st):
         from .common import _mv
         return {"cols": case["cols"], "dv": [_mv(model, v.t) for v in st["dv"]],
+                "lo": [_mv(model, v.t) for v in st["lo"]], "hi": [_mv(model, v.t) for v in st["hi"]],
                 "prios": [{key: _mv(model, v.t) for key, v in d.items()} for d in st["prios"]]}
 
     def replay(self, w):
@@ -262,7 +263,7 @@ class VectorsFromPriosH(Harness):
         import puan
         import puan.ndarray as pnd
         k = w["cols"]
-        vs = [puan.variable(0, (1, 1))] + [puan.variable(f"v{j}") for j in range(k)]
+        vs = [puan.variable(0, (1, 1))] + [puan.variable(f"v{j}", (w["lo"][j], w["hi"][j]) if "lo" in w else (0, 1)) for j in range(k)]
         p = pnd.ge_polyhedron([[0] + [1] * k], variables=vs, index=[puan.variable("r0")])
         cfg = pnd.ge_polyhedron_config(p, default_prio_vector=pnd.integer_ndarray(w["dv"]), variables=p.variables, index=p.index)
         rec = {}
